@@ -317,7 +317,8 @@ def must_reject(pt, acc, rng):
     acc.evaluations += 1
     kind = rng.choice(["width", "arity_more", "arity_less", "elem", "static_len", "txn_type", "count", "txn_not_dict", "dyn_vs_static", "nested_arity", "bool_len",
                        "static_for_dyn", "address_for_bytes", "staticbytes_for_bytes", "static_for_dyn_in_tuple", "static_for_string", "txn_type_pair", "txn_type_pair",
-                       "int_expr_uint8", "int_expr_uint16", "int_expr_uint32", "int_expr_byte", "int_expr_bool"])
+                       "int_expr_uint8", "int_expr_uint16", "int_expr_uint32", "int_expr_byte", "int_expr_bool",
+                       "dynbytes_for_string", "staticbytes32_for_address", "dynbytes_for_string_in_tuple", "fit_asymmetric", "fit_asymmetric"])
     x64, x32, s = abi.Uint64(), abi.Uint32(), abi.String()
     t2 = abi.make(abi.Tuple2[abi.Uint64, abi.Bool])
     t3 = abi.make(abi.Tuple3[abi.Uint64, abi.Bool, abi.Uint8])
@@ -346,6 +347,11 @@ def must_reject(pt, acc, rng):
         "staticbytes_for_bytes": ("m(byte[])void", [abi.make(abi.StaticBytes[__import__("typing").Literal[4]])]),
         "static_for_dyn_in_tuple": ("m((uint64,uint16[]))void", [abi.make(abi.Tuple2[abi.Uint64, abi.StaticArray[abi.Uint16, __import__("typing").Literal[2]]])]),
         "static_for_string": ("m(string)void", [abi.make(abi.StaticArray[abi.Byte, __import__("typing").Literal[5]])]),
+        # assignability is directed (argument type -> parameter type): the general type where the specific one is declared does not fit
+        "dynbytes_for_string": ("m(string)void", [abi.DynamicBytes()]),
+        "staticbytes32_for_address": ("m(address)void", [abi.make(abi.StaticBytes[__import__("typing").Literal[32]])]),
+        "dynbytes_for_string_in_tuple": ("m((string,uint64))void", [abi.make(abi.Tuple2[abi.DynamicBytes, abi.Uint64])]),
+        "fit_asymmetric": None,
         "bool_len": ("m(bool[16])void", [abi.make(abi.StaticArray[abi.Bool, __import__("typing").Literal[9]])]),
     }
     if kind == "txn_type_pair":
@@ -354,6 +360,18 @@ def must_reject(pt, acc, rng):
         a, b = rng.sample(sorted(names), 2)
         cases[kind] = ("m(%s)void" % a, [{pt.TxnField.type_enum: names[b], pt.TxnField.fee: pt.Int(0)}])
         kind_detail = "%s given where %s is declared" % (b, a)
+    if kind == "fit_asymmetric":
+        # ... and the specific type where the general one is declared does fit (same encoding) and has to be accepted
+        sig, args = rng.choice([("m(byte[])void", [abi.String()]), ("m(byte[32])void", [abi.Address()]),
+                                ("m((byte[],uint64))void", [abi.make(abi.Tuple2[abi.String, abi.Uint64])]),
+                                ("m(uint64,byte[32][])void", [x64, abi.make(abi.DynamicArray[abi.Address])])])
+        try:
+            pt.InnerTxnBuilder.MethodCall(app_id=pt.Int(1), method_signature=sig, args=args)
+            acc.counters["directed_fit_accepted"] += 1
+        except Exception as e:
+            acc.violation("wellformed_call_rejected", {"probe": kind, "signature": sig}, "an argument of type %s fits %s but was rejected: %s: %s"
+                          % (args[-1].type_spec(), sig, type(e).__name__, str(e)[:160]))
+        return
     sig, args = cases[kind]
     try:
         pt.InnerTxnBuilder.ExecuteMethodCall(app_id=pt.Int(1), method_signature=sig, args=args)
